@@ -11,6 +11,9 @@
 //	probe <alertname> <sev>     -> <cfg>.<receiver>[,…] | none   who was notified of a NEW alert (posted through the API)
 //	reload <cfg> <fault> <via>  -> ok | err:<stage>              via http = POST /-/reload, api = App.Reload()
 //	status                      -> <cfg> | unknown               GET /api/v2/status → which configuration is served
+//	astatus <name>              -> tgt=<state>:<silencedBy ok 0|1>:<n inhibitedBy> src=<state>:<n silencedBy>:<n inhibitedBy>
+//	                               what GET /api/v2/alerts reports for an alert that is BOTH inhibited (by the src alert,
+//	                               rule role=src > role=tgt equal alertname) and silenced (a silence on it alone)
 //	stop                        -> ok
 //
 // Every configuration routes to its own webhook paths (/hook/<cfg>/<receiver>),
@@ -128,6 +131,7 @@ func (w *world) configText(id, fault string) string {
 	}
 	fmt.Fprintf(&b, "# configuration %s\nroute:\n  receiver: %s-r0\n  group_by: [alertname]\n  group_wait: 100ms\n  group_interval: %s\n  repeat_interval: 4h\n", id, id, interval)
 	fmt.Fprintf(&b, "  routes:\n    - matchers: [ sev=\"x\" ]\n      receiver: %s\n", child)
+	b.WriteString("inhibit_rules:\n  - source_matchers: [ role=\"src\" ]\n    target_matchers: [ role=\"tgt\" ]\n    equal: [ alertname ]\n")
 	b.WriteString("receivers:\n")
 	for _, r := range []string{"r0", "r1"} {
 		fmt.Fprintf(&b, "  - name: %s-%s\n    webhook_configs:\n      - url: %s/hook/%s/%s\n        send_resolved: false\n", id, r, w.hook.URL, id, r)
@@ -151,7 +155,7 @@ func (w *world) configText(id, fault string) string {
 	case "tracing-headers-file-missing":
 		fmt.Fprintf(&b, "tracing:\n  client_type: grpc\n  endpoint: 127.0.0.1:4317\n  insecure: true\n  headers:\n    X-Verif:\n      files: [ %s ]\n", filepath.Join(w.dir, "no-such-header-"+id))
 	case "yaml":
-		b.WriteString("inhibit_rules: [ {\n")
+		b.WriteString("time_intervals: [ {\n")
 	case "unknown-field":
 		b.WriteString("no_such_top_level_key: 1\n")
 	}
@@ -361,6 +365,72 @@ func (w *world) exec(line string) string {
 			return m[1]
 		}
 		return "unknown"
+	case "astatus":
+		if w.a == nil {
+			return "noapp"
+		}
+		name := t[1]
+		now := time.Now()
+		mk := func(role string) map[string]any {
+			return map[string]any{"labels": map[string]string{"alertname": name, "role": role},
+				"startsAt": now.Format(time.RFC3339Nano), "endsAt": now.Add(30 * time.Minute).Format(time.RFC3339Nano)}
+		}
+		body, _ := json.Marshal([]map[string]any{mk("src"), mk("tgt")})
+		if code, resp, err := w.post("/api/v2/alerts", "application/json", body); err != nil || code != 200 {
+			return fmt.Sprintf("posterr:%d:%s", code, hx.Hex(string(resp)))
+		}
+		sb, _ := json.Marshal(map[string]any{
+			"matchers": []map[string]any{{"name": "alertname", "value": name, "isRegex": false, "isEqual": true}, {"name": "role", "value": "tgt", "isRegex": false, "isEqual": true}},
+			"startsAt": now.Format(time.RFC3339Nano), "endsAt": now.Add(30 * time.Minute).Format(time.RFC3339Nano), "createdBy": "verif", "comment": "astatus"})
+		code, resp, err := w.post("/api/v2/silences", "application/json", sb)
+		if err != nil || code != 200 {
+			return fmt.Sprintf("silerr:%d:%s", code, hx.Hex(string(resp)))
+		}
+		var sr struct {
+			SilenceID string `json:"silenceID"`
+		}
+		_ = json.Unmarshal(resp, &sr)
+		type gettable struct {
+			Labels map[string]string `json:"labels"`
+			Status struct {
+				State       string   `json:"state"`
+				SilencedBy  []string `json:"silencedBy"`
+				InhibitedBy []string `json:"inhibitedBy"`
+			} `json:"status"`
+		}
+		out := "tgt=missing src=missing"
+		// the inhibitor learns of the source alert asynchronously: wait until the target is reported inhibited (or 10 s)
+		for deadline := now.Add(10 * time.Second); time.Now().Before(deadline); time.Sleep(50 * time.Millisecond) {
+			code, body, err := w.get("/api/v2/alerts?filter=" + "alertname%3D%22" + name + "%22")
+			if err != nil || code != 200 {
+				continue
+			}
+			var as []gettable
+			if json.Unmarshal(body, &as) != nil {
+				continue
+			}
+			var tg, sc *gettable
+			for i := range as {
+				switch as[i].Labels["role"] {
+				case "tgt":
+					tg = &as[i]
+				case "src":
+					sc = &as[i]
+				}
+			}
+			if tg == nil || sc == nil {
+				continue
+			}
+			silOK := 0
+			if len(tg.Status.SilencedBy) == 1 && tg.Status.SilencedBy[0] == sr.SilenceID {
+				silOK = 1
+			}
+			out = fmt.Sprintf("tgt=%s:%d:%d src=%s:%d:%d", tg.Status.State, silOK, len(tg.Status.InhibitedBy), sc.Status.State, len(sc.Status.SilencedBy), len(sc.Status.InhibitedBy))
+			if len(tg.Status.InhibitedBy) > 0 {
+				break
+			}
+		}
+		return out
 	case "stop":
 		if w.a == nil {
 			return "noapp"
@@ -496,14 +566,14 @@ func TestInner(t *testing.T) {
 		n, p := 0, 0
 		cfg := func() string { n++; return fmt.Sprintf("c%d", n) }
 		probe := func(sev string) string { p++; return fmt.Sprintf("probe p%d-%d %s", id, p, sev) }
-		lines := []string{"steps", "start " + cfg(), probe("-"), probe("x")}
+		lines := []string{"steps", "start " + cfg(), probe("-"), probe("x"), fmt.Sprintf("astatus s%d-0", id)}
 		for _, f := range faults {
 			lines = append(lines, fmt.Sprintf("reload %s %s %s", cfg(), f, hx.Pick(r, vias)), "status", probe(hx.Pick(r, []string{"-", "x"})))
 			if r.IntN(3) == 0 {
 				lines = append(lines, probe(hx.Pick(r, []string{"-", "x"})))
 			}
 		}
-		lines = append(lines, "stop")
+		lines = append(lines, fmt.Sprintf("astatus s%d-1", id), "stop")
 		runCase(t, tr, repo, fmt.Sprintf("case %d kind=reload", id), lines)
 	}
 	// every stage at which a reload can be rejected, each followed by a valid reload that must take effect
